@@ -71,7 +71,7 @@ def run_harnesses(scratch, package, harnesses, timeout_s, jobs, log, extra=None)
     solver = {}
     for c in data.get("cbmc", []):
         st = c.get("cbmc_stats") or {}
-        solver[c["harness_id"]] = st.get("runtime_decision_procedure_s", 0.0) + st.get("runtime_symex_s", 0.0)
+        solver[c["harness_id"]] = (st.get("runtime_decision_procedure_s") or 0.0) + (st.get("runtime_symex_s") or 0.0)
     stubs = re.findall(r"- Stub: (\S+)", out)
     by_id = {r["harness_id"]: r for r in data.get("verification_results", {}).get("results", [])}
     for h in harnesses:
